@@ -8,7 +8,7 @@ from rules.astmodel import AstModel
 from sa.cfg import CFG
 from sa.guards import FactFlow, aliases_of
 from sa.loader import (
-    AnalysisError, Repo, call_name, enclosing_function, last_attr, parent, qualname_of,
+    AnalysisError, FuncDef, Repo, call_name, enclosing_function, last_attr, parent, qualname_of,
     unparse, walk_body,
 )  # fmt: skip
 from sa.report import Check, node_text
@@ -1497,3 +1497,58 @@ def printer_no_cross_compare(check: Check, repo: Repo, model: AstModel, rule: st
                  "fields are formatted independently" if not bad else f"`{unparse(bad[0])}` makes the text of one field depend on another field",
                  nontrivial=bool(bad))
     check.floor(rule, 45, "leave_<kind> methods")
+
+
+def number_parts(check: Check, repo: Repo, rule: str = "NUMBER-PARTS") -> None:
+    check.rule(
+        rule,
+        "Lexer.read_number applies the 'no digit after a leading 0' rule to the IntegerPart only: the branches "
+        "for the FractionalPart (after '.') and the ExponentPart (after e/E and an optional sign) read their "
+        "digits with a reader that accepts any digit sequence - the routine they call contains no leading-"
+        "zero rejection. Python prints 5e-05, JavaScript 5e-5; both are valid FloatValues and a printed "
+        "default value must lex again",
+    )
+    fn = repo.func("language.lexer", "Lexer.read_number")
+    cls = repo.cls("language.lexer", "Lexer")
+    methods = {m.name: m for m in cls.body if isinstance(m, FuncDef)}
+    arms = []
+    for s in fn.body:
+        if isinstance(s, ast.If):
+            t = unparse(s.test)
+            if "'.'" in t and "is_name_start" not in t and not any(isinstance(x, ast.Raise) for x in s.body):
+                arms.append(("FractionalPart", s))
+            elif "'Ee'" in t or "'eE'" in t:
+                arms.append(("ExponentPart", s))
+    if len(arms) != 2:
+        raise AnalysisError(f"read_number: fraction / exponent branches not recognised ({[a for a, _ in arms]})")
+
+    def rejects_leading_zero(m: ast.AST, depth: int = 0) -> bool:
+        # a test of the digit character against "0" that leads to a raise
+        zero_test = any(
+            isinstance(c, ast.Compare) and any(isinstance(k, ast.Constant) and k.value == "0" for k in [c.left, *c.comparators])
+            for c in ast.walk(m))
+        if zero_test and any(isinstance(x, ast.Raise) for x in ast.walk(m)):
+            return True
+        if depth < 2:
+            for c in ast.walk(m):
+                if isinstance(c, ast.Call) and isinstance(c.func, ast.Attribute) and unparse(c.func.value) == "self" and c.func.attr in methods \
+                        and methods[c.func.attr] is not m:
+                    if c.func.attr.startswith("read_") and rejects_leading_zero(methods[c.func.attr], depth + 1) and _reaches_on_zero(m, c):
+                        return True
+        return False
+
+    for part, arm in arms:
+        readers = [c for x in arm.body for c in ast.walk(x) if isinstance(c, ast.Call) and isinstance(c.func, ast.Attribute)
+                   and unparse(c.func.value) == "self" and c.func.attr.startswith("read_")]
+        bad = [c for c in readers if c.func.attr in methods and rejects_leading_zero(methods[c.func.attr])]
+        inline = [i for x in arm.body for i in ast.walk(x) if isinstance(i, ast.If) and '"0"' in unparse(i.test).replace("'", '"')
+                  and any(isinstance(r, ast.Raise) for r in ast.walk(i))]
+        ok = bool(readers) and not bad and not inline
+        check.ob(rule, arm, f"read_number: {part} digits read by {[c.func.attr for c in readers]}", ok,
+                 "any digit sequence is accepted" if ok else
+                 (f"`{bad[0].func.attr}` rejects a digit after a leading 0: '1e-05' no longer lexes" if bad else
+                  ("leading-zero test inside the branch" if inline else "no digit reader called")))
+
+
+def _reaches_on_zero(m: ast.AST, c: ast.Call) -> bool:
+    return True
